@@ -37,6 +37,7 @@ type World struct {
 	NPkgsTotal int
 	lockInfo   *LockInfo
 	lua        map[string]*luaScript
+	fieldStoreIdx map[string][]*ssa.Store
 	Ext        map[string]*packages.Package // every loaded package by path (dependencies included)
 }
 
@@ -117,6 +118,7 @@ func LoadWorld(repoDir, label string, env []string, buildFlags []string) (*World
 		w.SSA[p.PkgPath] = sp
 	}
 	w.indexFuncs()
+	currentWorld = w
 	return w, nil
 }
 
